@@ -196,6 +196,7 @@ func runC13(c *Ctx) {
 	c.rule(P, "record", "ReadRecord: size test on the returned buffer's own length; no Reset in the fragment loop; completes only on a last-fragment header", 3)
 	c.rule(P, "write-record", "WriteRecord: last-fragment bit exactly on the exhausting fragment and for empty data", 2)
 	runFullReadAs(c, P)
+	runNoWrapAs(c, P)
 	runAllocRule(c, P, nil)
 
 	// byteReader.readString bound (no make, slices the body)
@@ -517,6 +518,7 @@ func runC15(c *Ctx) {
 	runRecordRulesAs(c, P)
 	c.Only = savedOnly
 	runFullReadAs(c, P)
+	runNoWrapAs(c, P)
 
 	ent, err := p.entrySet()
 	if err != nil {
